@@ -42,3 +42,45 @@ func verifC07AtomicOFF() {
 	vObserve("len", int64(len(sink.log)))
 	vWitness("c07atomicoff-end")
 }
+
+// verifC07SequenceOFF: nrec records with distinct symbolic contents pending in the queue at
+// once (stalled writer goroutine); after Close the sink holds them whole and in order.
+func verifC07SequenceOFF() {
+	runtime.GOMAXPROCS(1)
+	nrec := vParam("nrec", 3)
+	nb := 1
+	sink := &c07Sink{}
+	aw := asyncbufio.NewWriter(sink, 10*nrec, time.Hour)
+	w := &Writer{NumberOfBases: nb, headerWritten: true, writer: aw}
+	frames := make([]int64, nrec)
+	tss := make([]int64, nrec)
+	ns := make([]int32, nrec)
+	for k := 0; k < nrec; k++ {
+		ks := string(rune('0' + k))
+		frames[k], tss[k], ns[k] = vSymI64("frame"+ks), vSymI64("ts"+ks), int32(vSymI32("nsamp"+ks))
+		err := w.WriteRecord(ns[k], 1, frames[k], tss[k], 1.5, 2.5, 3.5, make([]float32, nb))
+		vCheck(err == nil, "a record is accepted while the queue has room")
+	}
+	aw.Close()
+	recsize := 36 + 4*nb
+	vCheck(len(sink.log) == nrec*recsize, "the file holds whole records only")
+	if len(sink.log) == nrec*recsize {
+		for k := 0; k < nrec; k++ {
+			b := sink.log[k*recsize : (k+1)*recsize]
+			var n uint32
+			for j := 3; j >= 0; j-- {
+				n = n<<8 | uint32(b[j])
+			}
+			var f, t uint64
+			for j := 7; j >= 0; j-- {
+				f = f<<8 | uint64(b[8+j])
+				t = t<<8 | uint64(b[16+j])
+			}
+			vCheck(int32(n) == ns[k], "record k of the file carries the k-th accepted record's sample count")
+			vCheck(int64(f) == frames[k], "record k of the file carries the k-th accepted record's frame field")
+			vCheck(int64(t) == tss[k], "record k of the file carries the k-th accepted record's time stamp")
+		}
+	}
+	vObserve("len", int64(len(sink.log)))
+	vWitness("c07sequenceoff-end")
+}
